@@ -10,7 +10,7 @@
 import mujoco
 import numpy as np
 
-from mon import mw
+from mon import gen, mw
 
 GEOM_NAMES = {0: "plane", 1: "hfield", 2: "sphere", 3: "capsule", 4: "ellipsoid", 5: "cylinder", 6: "box", 7: "mesh"}
 TYPE_ID = {v: k for k, v in GEOM_NAMES.items()}
@@ -264,8 +264,15 @@ def _geomdist(mjm, mjd, qpos, g1, g2, distmax=1.0):
   return mujoco.mj_geomDistance(mjm, mjd, g1, g2, distmax, None)
 
 
-def draw_target(rng, margin):
-  """Signed surface distance a pair is steered to."""
+def draw_target(rng, margin, band_bias=False):
+  """Signed surface distance a pair is steered to (margin = margin + gap of the pair)."""
+  if band_bias and rng.random() < 0.7:
+    r = rng.random()
+    if r < 0.5:
+      return rng.uniform(0, margin) if margin > 0 else rng.normal() * 0.002
+    if r < 0.8:
+      return margin + rng.normal() * 0.003
+    return rng.normal() * 0.002
   r = rng.random()
   if r < 0.4:
     return rng.uniform(-0.04, -0.001)
@@ -278,7 +285,7 @@ def draw_target(rng, margin):
   return None  # raw random offset
 
 
-def place_pairs(mjm, info, pairs, rng, p_axis=0.25, same_point=0.0):
+def place_pairs(mjm, info, pairs, rng, p_axis=0.25, same_point=0.0, band_bias=False):
   """qpos (float32-rounded, float64 array) placing, for every (a, b) in pairs, body b's geom at a drawn signed distance
   from a (a = body index, or 'plane' / 'hfield' for the static geoms). Bodies not mentioned stay far apart."""
   mjd = mujoco.MjData(mjm)
@@ -321,7 +328,7 @@ def place_pairs(mjm, info, pairs, rng, p_axis=0.25, same_point=0.0):
       u /= np.linalg.norm(u)
       tlo, thi = 0.0, info["rbound"][a] + rb + 0.3
     margin = float(mjm.geom_margin[ga] + mjm.geom_margin[gb] + mjm.geom_gap[ga] + mjm.geom_gap[gb])
-    tgt = draw_target(rng, margin)
+    tgt = draw_target(rng, margin, band_bias)
     if a == "hfield":
       # no reference distance exists for separated height-field pairs (bisection needs a contact), and deep
       # penetration of a non-convex terrain is ill-posed: steer to shallow penetration / inside the margin
@@ -367,6 +374,102 @@ def place_crowd(mjm, info, rng, extent=0.35, p_axis=0.2, z0=0.15):
     q = axis_quat(rng) if rng.random() < p_axis else rquat(rng)
     _set_body_pose(qpos, i, p, q)
   return qpos.astype(np.float32).astype(np.float64)
+
+
+FLAGSETS = {
+  "default": {},
+  "nomulti": {"multiccd": "disable"},
+  "nonative": {"multiccd": "disable", "nativeccd": "disable"},
+}
+
+
+TREE_PROFILE = gen.profile(
+  nbody=(3, 7),
+  collide=True,
+  contact_rich=True,
+  p_plane=0.5,
+  p_mesh=0.15,
+  p_pair=0.4,
+  p_exclude=0.3,
+  p_priority=0.3,
+  p_weld=0.3,
+  p_mocap=0.1,
+  p_site=0.0,
+  condims=(1, 3, 4, 6),
+  cones=("pyramidal", "elliptic"),
+  flags_disable=("filterparent",),
+)
+
+
+
+def make_case_model(case, rng):
+  """Returns (xml, mjm, qpos_list, feats) or None if MuJoCo rejects it."""
+  kind = case["kind"]
+  flags = dict(FLAGSETS[case["flags"]])
+  nworld = 3
+  if kind == "pair":
+    t1, t2 = case["pair"]
+    K = 5
+    opts = {"flags": flags, "cone": ("pyramidal", "elliptic")[int(rng.integers(2))], "p_margin": 0.35, "p_params": 0.3}
+    opts["polytope_margin"] = case["flags"] == "nonative"
+    if t1 in ("plane", "hfield"):
+      bt = [t2] * K
+      pairs = [(t1, i) for i in range(K)]
+      opts[t1] = True
+      opts["plane_tilt"] = rng.random() < 0.5
+    else:
+      bt = [t1, t2] * K
+      pairs = [(2 * i, 2 * i + 1) for i in range(K)]
+      opts["pairs"] = [(2 * i, 2 * i + 1) for i in range(K) if rng.random() < 0.25]
+    xml, info = build_scene(rng, bt, opts)
+    mjm = gen.compile_xml(xml)
+    if mjm is None:
+      return None
+    qs = [place_pairs(mjm, info, pairs, rng)[0] for _ in range(nworld)]
+    return xml, mjm, qs, [f"pairscene:{t1}-{t2}", "flags:" + case["flags"], "cone:" + opts["cone"]]
+  if kind == "crowd":
+    n = int(rng.integers(8, 15))
+    types = ["sphere", "capsule", "ellipsoid", "cylinder", "box", "mesh"]
+    bt = [types[int(rng.integers(6))] for _ in range(n)]
+    opts = {"flags": flags, "cone": ("pyramidal", "elliptic")[int(rng.integers(2))], "p_margin": 0.3, "p_params": 0.3}
+    opts["polytope_margin"] = case["flags"] == "nonative"
+    opts["plane"] = rng.random() < 0.6
+    opts["plane_tilt"] = rng.random() < 0.5
+    opts["hfield"] = rng.random() < 0.35
+    prs, exs = [], []
+    for _ in range(3):
+      i, j = rng.choice(n, size=2, replace=False)
+      if rng.random() < 0.5 and (min(i, j), max(i, j)) not in prs:
+        prs.append((int(min(i, j)), int(max(i, j))))
+      i, j = rng.choice(n, size=2, replace=False)
+      if rng.random() < 0.4:
+        exs.append((int(i), int(j)))
+    opts["pairs"], opts["excludes"] = prs, exs
+    xml, info = build_scene(rng, bt, opts)
+    mjm = gen.compile_xml(xml)
+    if mjm is None:
+      return None
+    z0 = -2.72 if (opts["hfield"] and not opts["plane"]) else 0.05
+    qs = []
+    for w in range(nworld):
+      q = place_crowd(mjm, info, rng, extent=rng.choice([0.45, 0.6, 0.8]), z0=z0)
+      qs.append(q)
+    if opts["hfield"] and opts["plane"]:
+      pass
+    return xml, mjm, qs, ["crowd", "flags:" + case["flags"], "cone:" + opts["cone"]] + (["crowd:hfield"] if opts["hfield"] else []) + (["crowd:plane"] if opts["plane"] else [])
+  if kind == "tree":
+    P = dict(TREE_PROFILE)
+    P["p_margin"] = 0.3 if case["flags"] == "nomulti" else 0.0
+    xml, mjm, feat, s = gen.make_model(case["seed"], P)
+    if mjm is None:
+      return None
+    for k, v in flags.items():
+      bit = {"multiccd": mujoco.mjtDisableBit.mjDSBL_MULTICCD, "nativeccd": mujoco.mjtDisableBit.mjDSBL_NATIVECCD}[k]
+      mjm.opt.disableflags |= int(bit)
+    qs = [np.asarray(gen.sample_state(mjm, rng, quat_scale=False, applied=False)["qpos"], dtype=np.float64) for _ in range(nworld)]
+    return xml + "|" + case["flags"], mjm, qs, ["tree", "flags:" + case["flags"]] + [f for f in feat if f.startswith(("contact:", "disable:", "cone:"))]
+  raise ValueError(kind)
+
 
 
 # ------------------------------------------------------------------------------------ engines
